@@ -11,6 +11,7 @@ real SQLite file against an abstract pin-map model.
   round trip  export -> import into an empty store, host names with ':', IPv6 literals, quotes, non-ASCII
 """
 import itertools
+import os
 import random
 import shutil
 import sqlite3
@@ -415,6 +416,49 @@ def roundtrip_cases(d):
     return None
 
 
+def cli_import_cases(d):
+    """`nauyaca tofu import FILE [--replace] [--force]` on the operator's own store (~/.nauyaca/tofu.db): a failing import leaves it as it was"""
+    try:
+        from typer.testing import CliRunner
+        from nauyaca.__main__ import app
+    except ImportError:
+        return None
+    home = d / "home"
+    (home / ".nauyaca").mkdir(parents=True, exist_ok=True)
+    path = home / ".nauyaca" / "tofu.db"
+    good = [toml_entry("x.example", 1965, fp("A")), toml_entry("y.example", 1965, fp("B"))]
+    files = {"bad fingerprint in the last entry": good + [toml_entry("bad.example", 1965, "sha256:zz")], "missing field": [toml_entry("bad.example", 1965, fp("A"), drop="fingerprint")] + good,
+             "not TOML": None, "missing file": "absent"}
+    rows = [("a.example", 1965, "A"), ("b.example", 1966, "B")]
+    old_home = os.environ.get("HOME")
+    os.environ["HOME"] = str(home)
+    try:
+        for fname, entries in files.items():
+            for flags in (["--replace", "--force"], ["--force"], []):
+                f = d / "cli-in.toml"
+                if entries is None:
+                    f.write_text("this is = not [ toml\n")
+                elif entries == "absent":
+                    f = d / "no-such-file.toml"
+                else:
+                    write_toml(f, entries)
+                seed_store(path, rows)
+                before = table(path)
+                res = CliRunner().invoke(app, ["tofu", "import", str(f)] + flags, input="y\n")
+                now = table(path)
+                if res.exit_code != 0 and now != before:
+                    return dict(command="nauyaca tofu import " + " ".join([f.name] + flags), file=fname, exit_code=res.exit_code, store_before=sorted(map(str, before)), store_after=sorted(map(str, now)),
+                                violated=f"[C12] the import failed (exit code {res.exit_code}) but the store is not as before: {len(before)} pins before, {len(now)} after")
+                if res.exit_code == 0 and entries in (None, "absent"):
+                    return dict(command="nauyaca tofu import " + " ".join([f.name] + flags), file=fname, violated="an unreadable import file was reported as imported")
+    finally:
+        if old_home is None:
+            os.environ.pop("HOME", None)
+        else:
+            os.environ["HOME"] = old_home
+    return None
+
+
 def bank(focus=None, seed=0, deep=False):
     d = Path(tempfile.mkdtemp(prefix="pyvc_tofu_"))
     tried = 0
@@ -470,6 +514,10 @@ def bank(focus=None, seed=0, deep=False):
                     return dict(confirmed=True, input={k: v for k, v in r.items() if k != "violated"}, observed=dict(violated=[r["violated"]]), clause=clause)
             tried += 1
             r = import_cases(d)
+            if r:
+                return dict(confirmed=True, input={k: v for k, v in r.items() if k != "violated"}, observed=dict(violated=[r["violated"]]), clause=clause)
+            tried += 1
+            r = cli_import_cases(d)
             if r:
                 return dict(confirmed=True, input={k: v for k, v in r.items() if k != "violated"}, observed=dict(violated=[r["violated"]]), clause=clause)
             tried += 1
